@@ -959,3 +959,33 @@ def _min_witness(x, L, Lb, d, comp):
 c.at_return = _min_at_return
 c.assumptions.append("string facts: '.'.join(s.split('.')) == s, and splitting the join of a "
                      'suffix of the components gives those components back')
+
+
+# ==== get_all_matches ==============================================================================
+# (not used by gin itself; part of the public surface "every API resolves names identically")
+from contracts.b_selector_map import is_match_list as _is_match_list, _mk as _mk_abs
+c = _mk_abs('get_all_matches', ('C08',))
+c.param('partial_selector', KStr)
+c.result = KList(KVal)
+
+
+def _values_of_the_matches(x):
+  """The values, in order, of exactly the names matching_selectors returned (visible inside
+  this function's own proof through the call trace; True at call sites)."""
+  ms = [e['result'] for e in x.trace
+        if e.get('call') == 'selector_map.py::SelectorMap.matching_selectors' and 'result' in e]
+  if len(ms) != 1:
+    return z3.BoolVal(True)
+  ms = ms[0]
+  return z3.And(
+      _is_match_list(x.self_old, x.a.partial_selector.e, ms),
+      x.result.len == ms.len,
+      sym.forall([i_], z3.Implies(z3.And(0 <= i_, i_ < ms.len),
+                                  x.result.arr[i_] == M(x.self_old).val[ms.arr[i_]]),
+                 patterns=[x.result.arr[i_]]))
+
+
+c.ensure('values_of_exactly_the_matching_names_in_order', _values_of_the_matches)
+c.ensure('self_unchanged', lambda x: same_map(x.self_new, x.self_old))
+c.raises_only_listed = True
+register(c)
